@@ -11,5 +11,13 @@ def run(prop, tier, seed, replay):
         common.ensure_impl_python()
         import xform_check
         return xform_check.run(prop, tier, seed, replay)
+    if prop == 'C17':
+        common.ensure_impl_python()
+        import names_check
+        return names_check.run(prop, tier, seed, replay)
+    if prop == 'C13':
+        common.ensure_impl_python()
+        import query_check
+        return query_check.run(prop, tier, seed, replay)
     print('no check registered for', prop)
     return 2
